@@ -1,0 +1,23 @@
+//go:build verif
+
+// Lemma functions for the watermill verification harness (/verif, tool "gowp"). Compiled only with the
+// build tag "verif" and never called: each exists so that the verifier can check a statement about the
+// composition of functions against their contracts (a callee is used through its contract, not its body).
+
+package forwarder
+
+import "github.com/ThreeDotsLabs/watermill/message"
+
+// lemmaEnvelopeRoundTrip: unwrapping a wrapped message yields the destination topic and a message
+// that Equals the original (contract in zz_contracts_verif.go: the result is always true).
+func lemmaEnvelopeRoundTrip(topic string, m *message.Message) bool {
+	wrapped, err := wrapMessageInEnvelope(topic, m)
+	if err != nil {
+		return true // refused (empty topic) or the encoder failed: nothing was produced
+	}
+	dest, got, err := unwrapMessageFromEnvelope(wrapped)
+	if err != nil {
+		return true // the decoder failed (assumed dependency): nothing was produced
+	}
+	return dest == topic && got.Equals(m)
+}
